@@ -641,10 +641,53 @@ fn geometry(case: &GeoCase, obs: &mut Obs) -> PropResult {
 	Ok(())
 }
 
+// ---------------------------------------------------------------------------------------------
+// sub-check 3: trees after a renaming (dukebox::remap with a generated quill remapper)
+
+struct Ns;
+
+fn remapped(case: &crate::props::c07::Case, obs: &mut Obs) -> PropResult {
+	use crate::jar::{build_jar, ByRef, Entry};
+	use dukebox::storage::{ClassRepr, Jar, JarEntryEnum};
+	let models = crate::props::c07::jar_models(&case.streams, 4, 30);
+	let mut entries: Vec<(String, Entry)> = Vec::new();
+	for m in &models {
+		if let Ok(e) = encode(m, &case.ch) {
+			entries.push((format!("{}.class", m.name), Entry::Class(e.bytes)));
+		}
+	}
+	if entries.is_empty() {
+		return Ok(());
+	}
+	let kept: Vec<CClass> = models.iter().filter(|m| entries.iter().any(|(n, _)| n.strip_suffix(".class") == Some(m.name.as_str()))).cloned().collect();
+	let set = crate::props::c07::mappings_for(&kept, &case.map_stream);
+	let q = crate::mapmodel::conv::to_quill::<2, Ns>(&set, 0).map_err(|e| format!("harness: {e:#}"))?;
+	let jar = build_jar(&entries, case.input_form == 1)?;
+	let provider = jar.get_super_classes_provider().map_err(|e| format!("{e:#}"))?;
+	let remapper = q.remapper_b_first_to_second(&provider).map_err(|e| format!("{e:#}"))?;
+	let result = dukebox::remap::remap(jar, ByRef(&remapper)).map_err(|e| format!("harness: remap failed (C07's subject): {e:#}"))?;
+	let mut any = false;
+	for (name, entry) in &result.entries {
+		if let JarEntryEnum::Class(ClassRepr::Parsed { class }) = &entry.content {
+			tree_write_check(class, obs).map_err(|e| format!("class {name} after renaming: {e}"))?;
+			any = true;
+		}
+	}
+	obs.nontrivial_if(any && !set.classes.is_empty());
+	Ok(())
+}
+
 pub fn run(ctx: &mut Ctx) {
-	ctx.rule = "trees are obtained by duke::read_class from (a) class models of C01's generator under generated encodings and (b) geometry classes: a filler method first-uses >=256 constants so that `ldc`s of the second method grow to `ldc_w` when re-written, stretching jumps laid out at 32767+-8 / -32768+-8 (if*/goto/jsr, forward/backward, nested so that widening one jump pushes another over, switches behind the stretched region, locals around 255/256/65535, total size around 65535). Oracle: duke::write_class output passes the harness's strict JVMS decoder (indices, tags, exact lengths, code limits, boundaries, padding) and decodes to the projection of the tree, where an expected `if<c> T` may appear as `if<!c> +2; goto_w T` and every index-bearing table entry is compared through the alignment; an Err is accepted only if some method cannot fit 65535 bytes in its worst-case encoding. Non-trivial = (a) method with branch and pool reference, (b) output contains a widened jump or a grown ldc; distinct by case hash".into();
+	crate::engine::silence_stderr();
+	ctx.rule = "trees are obtained by duke::read_class from (a) class models of C01's generator under generated encodings, (c) the same after a renaming by dukebox::remap with a generated remapper, and (b) geometry classes: a filler method first-uses >=256 constants so that `ldc`s of the second method grow to `ldc_w` when re-written, stretching jumps laid out at 32767+-8 / -32768+-8 (if*/goto/jsr, forward/backward, nested so that widening one jump pushes another over, switches behind the stretched region, locals around 255/256/65535, total size around 65535). Oracle: duke::write_class output passes the harness's strict JVMS decoder (indices, tags, exact lengths, code limits, boundaries, padding) and decodes to the projection of the tree, where an expected `if<c> T` may appear as `if<!c> +2; goto_w T` and every index-bearing table entry is compared through the alignment; an Err is accepted only if some method cannot fit 65535 bytes in its worst-case encoding. Non-trivial = (a) method with branch and pool reference, (b) output contains a widened jump or a grown ldc; distinct by case hash".into();
 	ctx.assume("trees come from reading valid class files (a Label cannot be constructed outside duke)");
 	ctx.assume("no particular encoding, constant pool order or attribute order is required of the output");
 	ctx.run_sub("write_read_trees", ctx.tier.pick(6000, 120_000), || (class_stream(), choices()).prop_map(|(stream, ch)| SmallCase { stream, ch }), small);
 	ctx.run_sub("branch_geometry", ctx.tier.pick(400, 8000), geo_strategy, geometry);
+	ctx.run_sub(
+		"write_remapped_trees",
+		ctx.tier.pick(1500, 30_000),
+		|| (proptest::collection::vec(class_stream(), 1..=3), choices(), proptest::collection::vec(any::<u8>(), 0..120), 0u8..2).prop_map(|(streams, ch, map_stream, input_form)| crate::props::c07::Case { streams, ch, map_stream, input_form }),
+		remapped,
+	);
 }
